@@ -7,7 +7,14 @@ Tie: every string of length <= 6 (quick) / <= 7 (thorough) over the 9-symbol alp
 ``a ' " # $ { } \\n space`` goes through process_embedded_query_expr and through the model
 (enumerated by index on both sides, 16 processes); random and small exhaustive segment assemblies
 (well-formed and malformed); pragma/argument combinations through ScriptRunner and the model;
-nest-level flattening of real query results through ScriptRunner and the model's `flatten`.
+nest-level flattening of real query results through ScriptRunner and the model's `flatten`;
+execution on generated messages (harness/props/c18exec.py): uncompressed and compressed multi-subset
+messages whose subsets differ in values and replication counts x the child / attribute / bare-id / `>`
+queries of C16 x `@` selectors of every slice shape (negative steps, out of range, empty, step 0):
+levels 0, 1, 2, 4 and one level >= 3 by argument and by pragma, the three laws on the implementation's
+outputs, level 4 against DataQuerent's result, against the unselected query restricted to the selected
+subsets in the selector's order, and against the model (`query` then `flatten`, Props/C18Query.lean);
+scripts with several data / metadata queries.
 Oracle: (a) an independent regex tokenizer + global substitution table computed in Python on every
 closed script, (b) the Lean specification `Spec.expected` on segment lists, (c) the laws evaluated
 on the implementation alone (level 1 = concatenation of level 2, level 0 = head of level 1 or None,
@@ -35,7 +42,15 @@ META = dict(
          'pragma > default, a leading `#$` line sets the level it states whatever follows. Correspondence: all strings of length <= 6 (quick) / <= 7 (thorough) over 9 symbols, random and small '
          'exhaustive segment assemblies incl. malformed ones, Unicode whitespace / line-break classes, pragma x argument grids and '
          'ScriptRunner runs on decoded test messages at levels 0,1,2,4 by argument and by pragma, compared with the model; the laws '
-         'are also evaluated on the implementation alone.',
+         'are also evaluated on the implementation alone. Link to the query model (Props/C18Query.lean): the subsets of a successful '
+         'query are the index list of its `@` selector in the selector\'s order (pySlice: descending for a negative step), entry k of '
+         'level 4 is the answer for the k-th selected subset as it is and entry k of level 2 its leaves, levels 2/1/0 are '
+         'allValuesFlat / its concatenation / its head. Execution part: generated uncompressed and compressed multi-subset messages '
+         'whose subsets carry different values and replication counts (zero included) x child / attribute / bare-id / descendant '
+         'queries x `@` selectors of every slice shape (negative steps, out of range, empty, step 0) at levels 0,1,2,4 and >= 3 by '
+         'argument and by pragma: the three laws, level 4 = query result = unselected result restricted in the selector\'s order = '
+         'model query, levels 0-2 = model flatten of the model query; a query that raises makes the script raise in the same family; '
+         'scripts with several data and metadata queries bind every name to the single-query result at the level in force.',
     technique='Lean 4 theorems (induction over segment lists with a left-to-right table invariant; structural induction over '
               'nested values) + checked model/implementation correspondence (exhaustive by index + random)',
     note='compile()/exec of the processed code and ast.literal_eval beyond unsigned decimal literals are Python itself and not '
@@ -435,7 +450,8 @@ def queries_for(rng, msg, n):
     qs = []
     for _ in range(n):
         i = rng.choice(ids)
-        form = rng.choice(['%s', '%s', '>%s', '/%s', '@[0] > %s', '@[-1]>%s', '@[::2] > %s', '%s[0]', '%s[::2]', '%s[-1]', '/%s > ' + i, '@[5] > %s'])
+        form = rng.choice(['%s', '%s', '>%s', '/%s', '@[0] > %s', '@[-1]>%s', '@[::2] > %s', '%s[0]', '%s[::2]', '%s[-1]', '/%s > ' + i, '@[5] > %s',
+                           '@[::-1] > %s', '@[-1::-2]>%s', '@[3:0:-1] %s', '@[:-3:-1]/%s'])
         q = form % (rng.choice(top) if form.startswith('/%s >') else i)
         qs.append(q)
     qs.append('999999')
@@ -657,12 +673,24 @@ def char_classes(ctx):
 
 def run(ctx):
     ctx.corr_breaks = []
+    if os.environ.get('VERIF_C18_PARTS') == 'exec':
+        # diagnosis only (notes/C18_exec_mutations.py): the execution part on generated messages alone
+        from harness.props import c18exec
+        ctx.rule = 'diagnosis run: execution part on generated messages only'
+        c18exec.run_exec_generated(ctx)
+        if ctx.corr_breaks and ctx.violations == 0:
+            b = ctx.corr_breaks[0]
+            ctx.violation('correspondence model<->script.py broken on %d cases; first %s' % (len(ctx.corr_breaks), json.dumps(b, default=repr)[:300]),
+                          {'correspondence': 'script', 'first': b}, signature={'kind': 'correspondence'}, no_failing_input=True)
+        return
     maxlen = 6 if ctx.tier == 'quick' else 7
     ctx.rule = ('exhaustive: all strings of length 0..%d over %r by index on both sides; all segment lists of length <= %d over a 14-segment '
                 'pool; random segment assemblies (<= 30 segments, repeated expressions with different blanks, Unicode blanks) well-formed '
                 'and malformed, each with single-character mutations; pragma x argument grid; ScriptRunner on decoded test files at levels '
-                '0,1,2,4 by argument and by pragma; synthetic nested query results. Non-trivial: closed scripts with at least one embed / '
-                'scripts with a pragma or a level argument / query results with more than one subset or a nested value.'
+                '0,1,2,4 by argument and by pragma; synthetic nested query results; generated multi-subset messages (graded replication '
+                'counts, C09/C16 shapes, template generator levels 0-2, files) x existing paths with slices x `@` selectors of every slice '
+                'shape x levels 0,1,2,4,>=3 by argument and pragma, and scripts with several queries. Non-trivial: closed scripts with at least one embed / '
+                'scripts with a pragma or a level argument / query results with more than one subset or a nested value / generated: more than one selected subset and at least one value.'
                 % (maxlen, ALPHABET, 3 if ctx.tier == 'quick' else 4))
     cdir = os.path.join(core.VERIF, 'corpus', PROP)
     if os.path.isdir(cdir):
@@ -736,6 +764,9 @@ def run(ctx):
     # 6. execution
     run_exec(ctx, ctx.rng('exec'))
     synthetic_flatten(ctx, ctx.rng('flatten'))
+    # 7. execution on generated multi-subset messages x the queries of C16 x selectors of every shape (harness/props/c18exec.py)
+    from harness.props import c18exec
+    c18exec.run_exec_generated(ctx)
     if ctx.corr_breaks and ctx.violations == 0:
         b = ctx.corr_breaks[0]
         ctx.violation('correspondence model<->script.py broken on %d cases although the property holds on them; first %s'
@@ -754,6 +785,9 @@ def replay(ctx, path):
     if 'string' in rp:
         check_strings(ctx, [rp['string']], 'replay')
         print(json.dumps({'impl': impl_pre(rp['string']), 'expected': oracle_pre(rp['string'])}))
+    elif rp.get('exec_generated'):
+        from harness.props import c18exec
+        c18exec.replay_exec(ctx, rp)
     elif 'arg' in rp:
         check_runners(ctx, [(rp['script'], rp['arg'], 'unspecified')], 'replay')
         print(json.dumps({'impl': impl_runner(rp['script'], rp['arg'])}))
